@@ -254,12 +254,17 @@ def oracles(ctx, deep):
                 add(Violation("poisson-tolerance", "VariableDensityPoisson (%s, frame %d, %s) returned a mask with acceleration %.3f for requested %s (tolerance 0.2)" % (mode, f, kw, total / max(count, 1), R_used), {"config": c2, "count": count}, {"generator": name, "kind": "budget"}))
     # random line masks: expectation over seeds
     nseeds = ctx.n(400, 2000)
-    for _ in range(ctx.n(6, 30)):
+    # widths whose N / R ends in .5 first (a rounded target shifts the mean by half a column: many seeds are needed to see it)
+    fixed = [("FastMRIRandom", 100, 8, 0.04, "static", 3000), ("CartesianRandom", 36, 8, 2, "static", 3000), ("FastMRIRandom", 90, 4, 0.08, "dynamic", 3000)]
+    for spec in fixed + [None] * ctx.n(6, 30):
         name = rng.choice(["FastMRIRandom", "CartesianRandom"])
         N = rng.randint(32, 400)
         R = rng.choice(ACCELS)
         cf = rng.choice([4, 8, 12]) if name.startswith("Cartesian") else rng.choice([0.02, 0.04, 0.08])
         mode = rng.choice(["static", "dynamic", "multislice"])
+        nseeds = ctx.n(400, 2000)
+        if spec is not None:
+            name, N, R, cf, mode, nseeds = spec
         frames = 1 if mode == "static" else rng.randint(2, 3)
         shape = [8, N, 2] if mode == "static" else [frames, 8, N, 2]
         if not G.feasible(name, shape, R, cf):
